@@ -2,6 +2,7 @@
 //verif:replace@C13a (github.com/mimecast/dtail/internal/io/fs.readFile).Start = c13Start
 //verif:replace@C13b (github.com/mimecast/dtail/internal/io/fs.readFile).Start = c13Start
 //verif:replace@C13d (github.com/mimecast/dtail/internal/io/fs.readFile).Start = c13Start
+//verif:replace@C13h (github.com/mimecast/dtail/internal/io/fs.readFile).Start = c13Start
 
 package handlers
 
